@@ -162,6 +162,66 @@ theorem getDependencies_total (h : Header) (a b c : Nat) : (getDependencies h a 
 theorem getChangelog_total (h : Header) : (getChangelog h).isPanic = false :=
   triple_total ⟨getWith_not_panic _ _ _, getWith_not_panic _ _ _, getWith_not_panic _ _ _⟩ (fun _ _ _ => rfl)
 
+/-! ### file digests: the lengths `FileDigest::new` accepts are the digests' real sizes
+
+`Gen.fileDigestHexLen` is scraped from `impl FileDigest { fn new }` on every run (tools/gen/file_digest_len.py).
+The specification side is the size of each algorithm's output, which is not the library's to choose. -/
+
+/-- output size in bytes, by rpm's (= RFC 4880's) algorithm number: MD5, SHA-1, SHA-256, SHA-384, SHA-512, SHA-224 -/
+def digestBytes : Nat → Option Nat
+  | 1 => some 16 | 2 => some 20 | 8 => some 32 | 9 => some 48 | 10 => some 64 | 11 => some 28 | _ => none
+
+/-- the table the specification uses: the same algorithms the code supports, each with its real hex length -/
+def standardHexLen : List (Nat × Nat) := fileDigestHexLen.map fun p => (p.1, 2 * (digestBytes p.1).getD 0)
+
+/-- **every length the code pairs with an algorithm is that algorithm's digest size in hex** (re-checked against the
+source table on every run; with the pre-fix source `(11, 60)` this is false — `old_sha224_length_witness`) -/
+theorem file_digest_lengths_standard : ∀ p ∈ fileDigestHexLen, digestBytes p.1 = some (p.2 / 2) ∧ p.2 % 2 = 0 := by
+  decide
+
+theorem code_table_is_standard : fileDigestHexLen = standardHexLen := by decide
+
+/-- a file digest is accepted exactly when the source pairs its algorithm with its length … -/
+theorem fileDigestNew_ok_iff (a : Nat) (hex : Bytes) (tbl : List (Nat × Nat)) :
+    fileDigestNew a hex tbl = .ok (a, hex) ↔ (a, hex.length) ∈ tbl := by
+  unfold fileDigestNew
+  constructor
+  · intro h
+    split at h
+    · rename_i hany
+      obtain ⟨p, hp, hq⟩ := List.any_eq_true.mp hany
+      simp only [Bool.and_eq_true, beq_iff_eq] at hq
+      obtain ⟨h1, h2⟩ := hq
+      have : p = (a, hex.length) := Prod.ext h1 h2
+      rw [← this]; exact hp
+    · cases h
+  · intro h
+    rw [if_pos]
+    exact List.any_eq_true.mpr ⟨_, h, by simp⟩
+
+/-- … hence, with the current source, exactly when the text is a whole digest of a supported algorithm -/
+theorem fileDigestNew_accepts_real_digests (a : Nat) (hex : Bytes) (h : fileDigestNew a hex = .ok (a, hex)) :
+    digestBytes a = some (hex.length / 2) ∧ hex.length % 2 = 0 :=
+  file_digest_lengths_standard _ ((fileDigestNew_ok_iff a hex _).mp h)
+
+theorem fileDigestNew_never_invents (a : Nat) (hex : Bytes) (tbl : List (Nat × Nat)) (v : Nat × Bytes)
+    (h : fileDigestNew a hex tbl = .ok v) : v = (a, hex) := by
+  unfold fileDigestNew at h
+  split at h
+  · cases h; rfl
+  · cases h
+
+/-- **Documented negative (the source before the fix).** SHA-224 was paired with 60 hex characters: a real SHA-224
+digest (28 bytes = 56 characters) made `get_file_entries` fail with `UnsupportedDigestAlgorithm`, while 60 characters of
+anything were accepted. -/
+theorem old_sha224_length_witness :
+    let old : List (Nat × Nat) := [(1, 32), (8, 64), (11, 60), (9, 96), (10, 128)]
+    fileDigestNew 11 (List.replicate 56 48) old = .err "unsupported"
+      ∧ fileDigestNew 11 (List.replicate 60 48) old = .ok (11, List.replicate 60 48)
+      ∧ digestBytes 11 = some 28
+      ∧ fileDigestNew 11 (List.replicate 56 48) = .ok (11, List.replicate 56 48) := by
+  decide
+
 /-! ### non-vacuity -/
 -- a 2-entry header (STRING "abc" at 0, INT32 [7] at 4): the getters return what is stored
 def sampleHdr : Bytes := [142, 173, 232, 1, 1, 2, 3, 4, 0, 0, 0, 2, 0, 0, 0, 8, 0, 0, 3, 232, 0, 0, 0, 6, 0, 0, 0, 0,
